@@ -305,6 +305,25 @@ func (b *builder) value(t int) aval {
 			b.dup = true
 		}
 		return aval{kind: kArr, arr: []aval{{kind: kObj, keys: [][]byte{k1}, vals: []aval{v1}}, {kind: kObj, keys: [][]byte{k2, k3}, vals: []aval{v2, v3}}}}
+	case 30: // three members with independent names: a repeated name may stand before or after a distinct one
+		b.lit("{")
+		k1 := b.key()
+		b.lit(":")
+		v1 := b.intTok(0)
+		b.lit(",")
+		k2 := b.key()
+		b.lit(":")
+		v2 := b.intTok(0)
+		b.lit(",")
+		b.gap()
+		k3 := b.key()
+		b.lit(":")
+		v3 := b.intTok(0)
+		b.lit("}")
+		if k1[0] == k2[0] || k1[0] == k3[0] || k2[0] == k3[0] {
+			b.dup = true
+		}
+		return aval{kind: kObj, keys: [][]byte{k1, k2, k3}, vals: []aval{v1, v2, v3}}
 	default: // object inside an object
 		b.lit("{")
 		k := b.key()
